@@ -105,7 +105,8 @@ def default_render(ns, na, ne, rng: random.Random | None = None, plain=False):
         "v0_int": rng.random() < 0.25,
         "v0_f32": rng.random() < 0.2,
         "v0_on_instance": rng.random() < 0.25,
-        "adiv": rng.choice([1, 1, 1, 2, 4, 2 ** 30]),       # 2^30: distinct actions closer than 1e-8
+        "adiv": rng.choice([1, 1, 1, 2, 4, 2 ** 30, 2 ** 700]),   # 2^30: distinct actions closer than 1e-8; 2^700: the
+                                                                  # SQUARE of their difference underflows to zero
         "aoffset": rng.choice([0, 0, 0, 1000000]),           # distinct actions closer than 1e-5 relative
         "sdiv": rng.choice([1, 1, 1, 2, 4]),
     }
@@ -173,6 +174,9 @@ def make_problem(mdp: dict):
     nxt = jnp.array(nxt_np)
     rew = jnp.array(rew_np)
     prob = jnp.array(prob_np)
+    if r.get("prob_int") and mdp["PD"] == 1 and not rare:
+        # a deterministic problem whose probability function returns integer-typed indicators (1 / 0)
+        prob = jnp.array(prob_np.astype(np.int32))
     v0 = jnp.array(v0_np)
     # an initial-value heuristic computed from integer state vectors is integer-typed
     v0_int = bool(r.get("v0_int", False)) and mdp["v0exp"] == 0
